@@ -255,6 +255,43 @@ CLAIMED = {
 }
 
 
+# rule families added after the first version of the table above (rounds 2 and 3 of the seeded changes); appended to the technique / level text
+EXTRA = {
+    "C02": ("may-alias analysis of the FFTW plan buffers, string-typestate of the back-end selector (lower-case literals / .lower()), "
+            "constructor-only state behind cached phase tables, block-loop coverage (ceil vs floor number of blocks)",
+            "Also decides that no array is shared between the FFTW plan and a caller, that every Data_K configures a private copy of the R-vectors, "
+            "that the back-end selector only holds names the dispatch compares with, that a constructed transform object is not re-used with a "
+            "replaced k-list, and that block-wise loops visit the whole axis."),
+    "C04": ("per-k provenance of the rotated block (index of self.degen ↔ k-index of the eigenvectors), threshold-default comparison",
+            "Also decides that a block found degenerate at one k-point is rotated only there."),
+    "C05": ("transitive read sets of cached properties against the state rewritten by the re-indexing methods",
+            "Also decides that every cached property of Rvectors that depends on re-indexed state is in the invalidation list."),
+    "C12": ("dict-typestate of the ray.init options (store of the merged runtime_env → no rewriting statement on any path to ray.init), "
+            "no positional use of the ray.wait result",
+            "Also decides that the workers get the runtime_env merged by get_ray_runtime_env."),
+    "C13": ("memoisation-key completeness by def-use slicing (value dependencies ⊆ key dependencies, with control dependence, in-place "
+            "construction and unread callee parameters)",
+            "Also decides that no memoised provider of band groups / weights / k-space matrices omits a parameter of its value from its key."),
+    "C14": ("per-order specialisation of shared region loops, accumulation-loop normal form, escape analysis of cache entries (no in-place update)",
+            "Also decides that arrays handed out by the per-band weight cache are never modified in place."),
+    "C16": ("broadcast-shape rule for mul_array (axis i of the array ↦ data axis axes[i]); list-length case split for E_titles",
+            "Also decides that mul_array scales the requested axes."),
+    "C17": ("dtype provenance of the accumulation buffer; shallow-copy / cached-property interaction",
+            "Also decides that complex data keep their imaginary part and that copied results drop the parent's smoothed data."),
+    "C18": ("chunk-count algebra of the degeneracy header (ceil(N/k) non-empty chunks), shift-attribute ownership (constructor-with-centres, paired assignment)",
+            "Also decides that the chunked header never ends with an empty line and that reloaded R-vectors carry both centre shifts."),
+    "C19": ("layout of every data-building path of the text readers; monotone-flag rule for `irreducible`",
+            "Also decides that serial and pooled conversion agree and that the irreducible flag of a loaded container cannot be lowered by a later file."),
+    "C22": ("subset-escape rule (no mask-selected part of the checked set reaches the object); lockstep rule for the two parallel shell lists; "
+            "vectorised neighbour search idiom",
+            "Also decides that the stored b-vectors are the whole checked set and that Cartesian and lattice shell lists describe the same shells."),
+    "C23": ("CFG reachability rule: per-direction values are assigned on every path of the same loop pass",
+            "Also decides that no direction inherits a value of the previous one."),
+    "C25": ("escape analysis of objects handed out by caching methods; unit typestate of the spin-axis angles",
+            "Also decides that repeated get_system_R calls do not accumulate SOC terms in cached arrays and that angles are converted once."),
+}
+
+
 def build() -> dict:
     from .check import CLAIMED as ORDER
     checks = []
@@ -264,6 +301,9 @@ def build() -> dict:
         if not os.path.exists(os.path.join(VERIF, "wbstatic", "rules", pid.lower() + ".py")):
             continue
         tech, cat, text, note, ref = CLAIMED[pid]
+        if pid in EXTRA:
+            tech = tech + "; " + EXTRA[pid][0]
+            text = text + " " + EXTRA[pid][1]
         checks.append({
             "property_id": pid,
             "quick_cmd": f"{PY} -m wbstatic.check {pid} --tier quick",
